@@ -1,12 +1,8 @@
 /- C05 helper lemmas: the normal form of model runs (nested if-then-else) and one equation model = spec per operation. -/
-import Tetl.C05.Sites
 import Tetl.C05.Carried
 import Tetl.C05.Spec
 namespace Tetl.C05.Lemmas
 open Tetl.C05 Tetl.C05.Spec
-
-/-- projection of the regenerated inventory that the models must match -/
-def inventory : List (Key × Bool) := Sites.sites.map (fun s => (s.key, s.late))
 
 def Res.bind {α β} : Res α → (α → St → Res β) → Res β
   | .ok a s, f => f a s
@@ -50,14 +46,14 @@ macro "c05_open" : tactic => `(tactic|
   simp only [run, expect_eq, doc, firstViolated, bind_eq, pure_eq, Tetl.C05.guard, guardSafe, rdAt_eq, wrAt, getSize, getCap, getSt,
     St.size, ctorState, lastOf, elemAt_eq, shrinkTo, constructEnd, putElems, withElems,
     VW.at_, VW.front, VW.back, VW.removePrefix, VW.removeSuffix, VW.copy, VW.substr, VW.narrow, VW.sub,
-    SP.at_, SP.front, SP.back, SP.first, SP.last, SP.subspan,
-    IV.front, IV.back, IV.at_, IV.append, IV.popBack, AR.at_,
+    SP.at_, SP.front, SP.back, SP.first, SP.last, SP.subspan, SP.firstT, SP.lastT, SP.subspanT, SP.ctorExt,
+    IV.front, IV.back, IV.at_, IV.append, IV.popBack, AR.at_, AR.front, AR.back,
     SV.at_, SV.front, SV.back, SV.indexGuard, SV.pushBack, SV.emplaceBack, SV.popBack, SV.setSizeGuard, SV.itInRange, SV.pairInRange,
     SV.destroyGuard, SV.clear, SV.rotateAt, putAlt,
     STR.front, STR.back, STR.at_, STR.pushBack, STR.popBack, STR.eraseRng, STR.setSizeGuard, STR.ctorPtr, STR.ctorFill, STR.assignPtr,
     STR.opAssign, STR.assignFill, eraseRange, insertAt,
     OEV.optDeref, OEV.expDeref, OEV.expError, OEV.varIdx, OEV.varGet,
-    BS.ctor, SC.bit, SC.divSat, SC.dayCtor, SC.monthCtor, SC.stride, SC.setCtor, posClauses, List.cons_append, List.nil_append,
+    BS.ctor, SC.dayCtor, SC.monthCtor, SC.stride, SC.setCtor, posClauses, List.cons_append, List.nil_append,
     Res.bind_ok, Res.bind_assert, Res.bind_oob, Res.bind_ite, Res.bind_dite, fin_none, fin_some, fin_ite, decide_eq_true_eq, ite_app2])
 
 theorem take_drop_all (l : List Int) (n m : Nat) (h : l.length ≤ n + m) : List.take m (List.drop n l) = List.drop n l :=
@@ -93,7 +89,13 @@ theorem spBack_eq (cfg : Cfg) (s : St) : run (.spBack) cfg s = expect (.spBack) 
 theorem spFirst_eq (a) (cfg : Cfg) (s : St) : run (.spFirst a) cfg s = expect (.spFirst a) cfg s := by c05_open; c05_close
 theorem spLast_eq (a) (cfg : Cfg) (s : St) : run (.spLast a) cfg s = expect (.spLast a) cfg s := by c05_open; c05_close
 theorem spSubspan_eq (a b) (cfg : Cfg) (s : St) : run (.spSubspan a b) cfg s = expect (.spSubspan a b) cfg s := by c05_open; c05_close
-theorem arAt_eq (k i) (cfg : Cfg) (s : St) (h : cfg.safe = true ∨ i < s.size) : run (.arAt k i) cfg s = expect (.arAt k i) cfg s := by c05_open; c05_close
+theorem spFirstT_eq (a) (cfg : Cfg) (s : St) : run (.spFirstT a) cfg s = expect (.spFirstT a) cfg s := by c05_open <;> c05_close
+theorem spLastT_eq (a) (cfg : Cfg) (s : St) : run (.spLastT a) cfg s = expect (.spLastT a) cfg s := by c05_open <;> c05_close
+theorem spSubspanT_eq (a b) (cfg : Cfg) (s : St) : run (.spSubspanT a b) cfg s = expect (.spSubspanT a b) cfg s := by c05_open <;> c05_close
+theorem spCtorExt_eq (k e) (cfg : Cfg) (s : St) : run (.spCtorExt k e) cfg s = expect (.spCtorExt k e) cfg s := by c05_open <;> c05_close
+theorem arAt_eq (k i) (cfg : Cfg) (s : St) (h : cfg.safe = true ∨ i < s.size ∨ s.size = 0) : run (.arAt k i) cfg s = expect (.arAt k i) cfg s := by c05_open; c05_close
+theorem arFront_eq (k) (cfg : Cfg) (s : St) : run (.arFront k) cfg s = expect (.arFront k) cfg s := by c05_open; c05_close
+theorem arBack_eq (k) (cfg : Cfg) (s : St) : run (.arBack k) cfg s = expect (.arBack k) cfg s := by c05_open; c05_close
 theorem ivFront_eq (k) (cfg : Cfg) (s : St) : run (.ivFront k) cfg s = expect (.ivFront k) cfg s := by c05_open; c05_close
 theorem ivBack_eq (k) (cfg : Cfg) (s : St) : run (.ivBack k) cfg s = expect (.ivBack k) cfg s := by c05_open; c05_close
 theorem ivAt_eq (k i) (cfg : Cfg) (s : St) : run (.ivAt k i) cfg s = expect (.ivAt k i) cfg s := by c05_open; c05_close
@@ -118,8 +120,6 @@ theorem expDeref_eq (k) (cfg : Cfg) (s : St) (h : s.size = 1) : run (.expDeref k
 theorem expError_eq (k) (cfg : Cfg) (s : St) (h : s.size = 1) : run (.expError k) cfg s = expect (.expError k) cfg s := by c05_open; c05_close
 theorem varIdx_eq (k i) (cfg : Cfg) (s : St) (h : s.size = 1) : run (.varIdx k i) cfg s = expect (.varIdx k i) cfg s := by c05_open; c05_close
 theorem varGet_eq (k i) (cfg : Cfg) (s : St) (h : s.size = 1) : run (.varGet k i) cfg s = expect (.varGet k i) cfg s := by c05_open; c05_close
-theorem bit_eq (wh w p) (cfg : Cfg) (s : St) : run (.bit wh w p) cfg s = expect (.bit wh w p) cfg s := by c05_open; c05_close
-theorem divSat_eq (y) (cfg : Cfg) (s : St) : run (.divSat y) cfg s = expect (.divSat y) cfg s := by c05_open; c05_close
 theorem dayCtor_eq (d) (cfg : Cfg) (s : St) (h : 1 ≤ s.cap) : run (.dayCtor d) cfg s = expect (.dayCtor d) cfg s := by c05_open; c05_close
 theorem monthCtor_eq (d) (cfg : Cfg) (s : St) (h : 1 ≤ s.cap) : run (.monthCtor d) cfg s = expect (.monthCtor d) cfg s := by c05_open; c05_close
 theorem stride_eq (l r) (cfg : Cfg) (s : St) : run (.stride l r) cfg s = expect (.stride l r) cfg s := by c05_open; c05_close
